@@ -182,14 +182,14 @@ def finish(P, t, tag):
   confirmed = None
   for r in P.results:
     r = dict(r)
-    if r['status'] == 'sat' and r.get('kind', 'core') == 'core':
+    if r['status'] in ('sat', 'unknown') and r.get('kind', 'core') == 'core':
       if confirmed is None:
         confirmed = confirm(t) or False
       if confirmed:
         r['status'] = 'violation'
         viol.append(dict(key=f"C05:{t['kind']}:{r['name'].split('|')[-1].split(' ')[0]}", what=confirmed['what'],
                          replay=confirmed['replay']))
-      else:
+      elif r['status'] == 'sat':
         r['status'] = 'spurious'
         r['note'] = 'candidate counterexample did not reproduce on the real code'
     res.append(r)
